@@ -997,6 +997,171 @@ func quietCase(w *mon.Worker, idx int) {
 	close(ss.release)
 }
 
+// slowConsumerCase: the application does not take packets from Responses() for a while (2.2..8.5 s,
+// before the first packet or in the middle of the sequence) while the server keeps writing and the
+// client keeps pinging. Responses() is an unbuffered channel and TCP pushes back, so a correct client
+// loses nothing: once the consumer drains, the delivered sequence must equal the sent sequence. The
+// stalls stay below the client's 10 s silence timer. The verdict does not depend on the stall being
+// exact; a machine that stood still makes the case inconclusive.
+func slowConsumerCase(w *mon.Worker, idx int) {
+	rng := w.Rng("slowconsumer", idx)
+	id := adnl.NewIdentity(rng.Bytes(32))
+	ip := caseIP()
+	ns, _ := nonceSource(rng.Fork("nonce", 0))
+	srv, ss, err := startServer(ip, id, ns, nil, true, false)
+	if err != nil {
+		w.HarnessError("listen: " + err.Error())
+		return
+	}
+	defer srv.Close()
+	pr := startProbe()
+	defer pr.Stop()
+	wit := map[string]any{"case": idx, "section": "slow-consumer", "server_seed": mon.Hex(id.Seed[:])}
+	conn, err, pn := dial(id.Pub[:], srv.Addr())
+	if pn != nil || err != nil {
+		if pn == nil && pr.Max() > 500*time.Millisecond {
+			w.Inconclusive("handshake failed on a stalled machine")
+			return
+		}
+		wit["error"] = fmt.Sprint(err, pn)
+		w.Violation("handshake-failed@clean-stream", wit)
+		return
+	}
+	var peer *adnl.Peer
+	for i := 0; i < 200 && peer == nil; i++ {
+		ss.mu.Lock()
+		peer = ss.peer
+		ss.mu.Unlock()
+		if peer == nil {
+			time.Sleep(5 * time.Millisecond)
+		}
+	}
+	if peer == nil {
+		w.HarnessError("reference server reported no session although the client's handshake completed")
+		return
+	}
+	n := rng.Range(4, 10)
+	// stall before taking packet number stallAt; every third case stalls twice
+	stallAt := map[int]time.Duration{}
+	total := time.Duration(0)
+	pick := func() time.Duration {
+		switch (idx + len(stallAt)) % 3 {
+		case 0:
+			return time.Duration(rng.Range(2200, 3600)) * time.Millisecond
+		case 1:
+			return time.Duration(rng.Range(5200, 6800)) * time.Millisecond
+		}
+		return time.Duration(rng.Range(3600, 8500)) * time.Millisecond
+	}
+	first := 0
+	if rng.Intn(2) == 1 {
+		first = rng.Range(1, n-1)
+	}
+	stallAt[first] = pick()
+	total += stallAt[first]
+	if idx%3 == 2 {
+		if second := rng.Range(0, n-1); second != first {
+			if d := pick(); total+d < 9*time.Second {
+				stallAt[second] = d
+				total += d
+			}
+		}
+	}
+	col := &collector{tick: make(chan struct{}, 1)}
+	go func() {
+		k := 0
+		for {
+			if d, ok := stallAt[k]; ok {
+				time.Sleep(d)
+			}
+			p, ok := <-conn.Responses()
+			if !ok {
+				return
+			}
+			col.mu.Lock()
+			col.got = append(col.got, p.Payload)
+			col.mu.Unlock()
+			k++
+			select {
+			case col.tick <- struct{}{}:
+			default:
+			}
+		}
+	}()
+	// the server writes all its packets within the first 1.5 s, i.e. while the consumer is away or
+	// just before it goes away; small payloads, so that the socket buffers hold them
+	var s2c, c2s [][]byte
+	var writeErr, sendErr error
+	for i := 0; i < n; i++ {
+		pl := payload(rng, rng.Range(1, 1500))
+		s2c = append(s2c, pl)
+		if e := peer.Send(ns(), pl); e != nil && writeErr == nil {
+			writeErr = e
+		}
+		if i%3 == 1 {
+			cp := payload(rng, rng.Range(1, 300))
+			pk, e := liteclient.NewPacket(cp)
+			if e == nil {
+				e = conn.Send(pk)
+			}
+			c2s = append(c2s, cp)
+			if e != nil && sendErr == nil {
+				sendErr = e
+			}
+		}
+		time.Sleep(time.Duration(rng.Range(0, 150)) * time.Millisecond)
+	}
+	okC, okS := col.waitCount(len(s2c), total+6*time.Second), ss.waitRecv(len(c2s), 5*time.Second)
+	// a dropped packet shifts the sequence; give late ones a moment so that the witness is complete
+	time.Sleep(100 * time.Millisecond)
+	ss.mu.Lock()
+	recv, rerr, pings, sessions := ss.recv, ss.recvErr, ss.pings, ss.sessions
+	ss.mu.Unlock()
+	got := col.snapshot()
+	stalls := map[string]int64{}
+	for k, d := range stallAt {
+		stalls[fmt.Sprint("before_packet_", k)] = d.Milliseconds()
+	}
+	wit["consumer_stalls_ms"], wit["handshakes_seen_by_the_server"], wit["pings_answered"] = stalls, sessions, pings
+	wit["delivered_to_client"], wit["sent_by_server"], wit["received_by_server"], wit["sent_by_client"] = len(got), len(s2c), len(recv), len(c2s)
+	w.Eval(fmt.Sprintf("slow-consumer/%d/%d/%d", idx, len(s2c), len(stallAt)))
+	for i := 0; i < len(got) && i < len(s2c); i++ {
+		if !bytes.Equal(got[i], s2c[i]) {
+			wit["index"] = i
+			w.Violation("payload-mismatch@server->client/slow-consumer", wit)
+			return
+		}
+	}
+	for i := 0; i < len(recv) && i < len(c2s); i++ {
+		if !bytes.Equal(recv[i], c2s[i]) {
+			wit["index"] = i
+			w.Violation("payload-mismatch@client->server/slow-consumer", wit)
+			return
+		}
+	}
+	if len(got) > len(s2c) || len(recv) > len(c2s) {
+		w.Violation("surplus-packet@slow-consumer", wit)
+		return
+	}
+	if !okC || !okS || sendErr != nil || writeErr != nil || (rerr != nil && rerr != io.EOF) {
+		if pr.Max() > 500*time.Millisecond {
+			w.Inconclusive("slow-consumer case on a stalled machine")
+			return
+		}
+		wit["send_error"], wit["server_write_error"], wit["reference_error"] = fmt.Sprint(sendErr), fmt.Sprint(writeErr), fmt.Sprint(rerr)
+		dir := "server->client"
+		if okC && writeErr == nil {
+			dir = "client->server"
+		}
+		w.Violation("not-delivered@slow-consumer/"+dir, wit)
+		return
+	}
+	w.Count("slow_consumer_cases", 1)
+	w.Count("slow_consumer_stalls", int64(len(stallAt)))
+	w.Seen("slow_consumer_stall_s", fmt.Sprint(int(total.Seconds())))
+	close(ss.release)
+}
+
 // concurrentCase: several goroutines send on one connection at the same time. The stream cipher
 // state carries across packets, so the frames must reach the socket in the order in which they
 // took key stream: the reference peer must read every frame as valid and receive exactly the
@@ -1554,6 +1719,13 @@ func faultyHandshake(w *mon.Worker, idx int, rng *mon.Rng, id *adnl.Identity) {
 			w.Count("faulty_handshakes_left_intact_by_the_fault", 1)
 			return
 		}
+		// the top bit of the last byte of the client's Ed25519 ephemeral key is the sign of x; the
+		// Montgomery u used for the key agreement depends on y alone, so a handshake that differs
+		// in this bit only is the same handshake to every conforming server
+		if f.Offset == 63 && ((kind == adnl.BitFlip && f.Bit&7 == 7) || (kind == adnl.ByteSubst && f.Delta == 0x80)) {
+			w.Count("faulty_handshakes_left_intact_by_the_fault", 1)
+			return
+		}
 		w.HarnessError(fmt.Sprintf("reference server accepted a corrupted handshake (%s at %d)", kind, f.Offset))
 		return
 	}
@@ -1934,12 +2106,13 @@ func workers() map[string]func(*mon.Worker) {
 		"over": func(w *mon.Worker) {
 			runSpan(w, func(i int) { cleanCase(w, 2_000_000+i, cleanOpts{overLimit: 1 + i*977}) })
 		},
-		"faulty":     func(w *mon.Worker) { runSpan(w, func(i int) { faultyCase(w, i) }) },
-		"concurrent": func(w *mon.Worker) { runSpan(w, func(i int) { concurrentCase(w, i) }) },
-		"parse":      func(w *mon.Worker) { runSpan(w, func(i int) { parseCase(w, i) }) },
-		"parsebig":   func(w *mon.Worker) { runSpan(w, func(i int) { parseBigCase(w, i) }) },
-		"connectctx": func(w *mon.Worker) { runSpan(w, func(i int) { connectCtxCase(w, i) }) },
-		"quiet":      func(w *mon.Worker) { runSpan(w, func(i int) { quietCase(w, i) }) },
+		"faulty":       func(w *mon.Worker) { runSpan(w, func(i int) { faultyCase(w, i) }) },
+		"concurrent":   func(w *mon.Worker) { runSpan(w, func(i int) { concurrentCase(w, i) }) },
+		"parse":        func(w *mon.Worker) { runSpan(w, func(i int) { parseCase(w, i) }) },
+		"parsebig":     func(w *mon.Worker) { runSpan(w, func(i int) { parseBigCase(w, i) }) },
+		"connectctx":   func(w *mon.Worker) { runSpan(w, func(i int) { connectCtxCase(w, i) }) },
+		"quiet":        func(w *mon.Worker) { runSpan(w, func(i int) { quietCase(w, i) }) },
+		"slowconsumer": func(w *mon.Worker) { runSpan(w, func(i int) { slowConsumerCase(w, i) }) },
 	}
 }
 
@@ -2025,7 +2198,7 @@ func main() {
 		"faulty runs: exactly one fault (bit flip, byte substitution, truncation, duplication, deletion) at a chosen offset of the server->client stream (handshake confirmation, or length/nonce/payload/checksum of the k-th frame) or of the client's handshake; the sequence delivered on Responses() must be exactly the frames before the first touched one, each equal to what was sent (one evaluation per faulty run, distinct = distinct (kind, region, frame, offset)); " +
 		"ParsePacket: streams of three reference-encrypted frames with every single-bit flip, one substitution per byte, every truncation, and awkward readers (one evaluation per mutated stream); " +
 		"large frames: one faulty run in twelve aims its fault at a frame of 100 KiB..8 MiB-64, and ParsePacket streams holding frames above 64 KiB and above 1 MiB get sampled bit flips in every region; " +
-		"payloads that begin with the constructor id of tcp.ping / tcp.pong / tcp.authentificationNonce without being such a message travel like any other payload; every sixth concurrent-senders case keeps sending without a pause for 6.5 s so that the client's own pings fall into the middle of the senders' frames; connections made with a connect context of 0.6..1.5 s carry packets both ways before that deadline, after it (context left alone, cancelled at once, or cancelled later) and after the client's first own ping; a session that carries nothing but the client's pings and the server's pongs for more than 10 s still delivers what the server writes at 10.5..13 s and what the client sends then"
+		"payloads that begin with the constructor id of tcp.ping / tcp.pong / tcp.authentificationNonce without being such a message travel like any other payload; every sixth concurrent-senders case keeps sending without a pause for 6.5 s so that the client's own pings fall into the middle of the senders' frames; connections made with a connect context of 0.6..1.5 s carry packets both ways before that deadline, after it (context left alone, cancelled at once, or cancelled later) and after the client's first own ping; a session that carries nothing but the client's pings and the server's pongs for more than 10 s still delivers what the server writes at 10.5..13 s and what the client sends then; an application that does not take packets from Responses() for 2.2..8.5 s (before the first packet or between two packets, once or twice) receives the complete sequence afterwards"
 	R.Assume("reference peer harness/ref/adnl implements ADNL-over-TCP as described at the top of ref/adnl/adnl.go; pinned only by its self-check (RFC 7748 base point, DH symmetry, client half vs server half) and by interoperating with tongo")
 	R.Assume("an accepted corrupted frame by hash collision (2^-256) is ignored; over-limit frames (> 8 MiB) may be refused or delivered intact")
 	if err := adnl.SelfCheck(); err != nil {
@@ -2050,6 +2223,7 @@ func main() {
 		}
 	}
 	split("quiet", R.N(1, 3), 1) // the long one (about 14 s) goes first
+	split("slowconsumer", R.N(3, 9), 1)
 	split("limit", R.N(1, 4), 1)
 	split("over", R.N(1, 3), 1)
 	split("clean", R.N(20, 300), R.N(3, 12))
